@@ -214,9 +214,10 @@ def build(spec):
         return dec(spec['num'])
     s = spec['ts']
     index = pd.DatetimeIndex([GRID[p] for p in s['idx']])
+    dtype = 'int64' if s.get('int') else float
     if s['cols'] is None:
-        return pd.Series([dec(v) for v in s['vals'][0]], index, dtype=float)
-    return pd.DataFrame({c: pd.Series([dec(v) for v in vs], index, dtype=float) for c, vs in zip(s['cols'], s['vals'])}, index=index, columns=list(s['cols']))
+        return pd.Series([dec(v) for v in s['vals'][0]], index, dtype=dtype)
+    return pd.DataFrame({c: pd.Series([dec(v) for v in vs], index, dtype=dtype) for c, vs in zip(s['cols'], s['vals'])}, index=index, columns=list(s['cols']))
 
 
 def from_result(r):
@@ -377,6 +378,20 @@ def jobs_for(tier, seed):
         for p in (0.0, 1.0, -2.0):
             for q in (0.0, 1.0, -2.0):
                 add(fn, [{'num': p}, {'num': q}])
+    # C'. integer-valued operands (dtype int64: a missing timestamp of an outer join has to become NaN all the same, 1/0 is NaN, results are the same numbers)
+    rng_i = random.Random(seed + 31)
+    INTS = [0.0, 1.0, -2.0, 3.0]
+
+    def int_ts(kind):
+        idx = SUBSETS[rng_i.randrange(32)]
+        cols = None if kind == 's' else rng_i.choice(COLSETS)
+        vals = [[rng_i.choice(INTS) for _ in idx] for _ in (cols or [0])]
+        return {'ts': dict(idx=list(idx), cols=None if cols is None else list(cols), vals=vals, int=True)}
+    for _ in range(600 if quick else 12000):
+        kinds = rng_i.choice(['ss', 'ss', 'ff', 'fs', 'sn', 'ns'])
+        ops = [int_ts(k) if k != 'n' else {'num': rng_i.choice([0.0, 1.0, -2.0])} for k in kinds]
+        fn = rng_i.choice([f for f in ARITH * 2 + OTHER if f != 'pow'])
+        add(fn, ops, 1, rng_i.choice(['ij', 'oj']), rng_i.choice(['ij', 'oj']))
     # D. lists of 3-4 operands reduce left to right (add_, mul_, min_, max_), scalars allowed as members
     for _ in range(1200 if quick else 30000):
         k = rng.choice([3, 3, 4])
